@@ -1043,6 +1043,10 @@ func main() {
 		fmt.Fprintln(os.Stderr, "reference self-test failed:", err)
 		os.Exit(2)
 	}
+	if err := mc.ReductionSelfTest(); err != nil {
+		fmt.Fprintln(os.Stderr, "alphabet generator self-test failed:", err)
+		os.Exit(2)
+	}
 	R.Rule("states = distinct field values / byte strings visited; a transition is one operation application under one alias pattern, run on the implementation and the math/big model; non-trivial = steered boundary pairs, non-canonical strings, wide-reduction strings")
 	R.Assume("math/big and the Go toolchain are correct; the reference model in /verif/ref")
 	R.Config("amd64 default build")
